@@ -1,4 +1,5 @@
 import ObiVerif.Lemmas.Uniq
+import ObiVerif.Lemmas.UniqDemerge
 /-!
 # C06 — dereplication conserves counts and merges exactly the identical records (property theorems)
 
@@ -284,6 +285,75 @@ theorem demerge_counts (h : Seq → Nat) (o : Opts) (input : List Rec) (ok : Inp
   have e := congrArg (List.map fun (x : Seq × Option String × Option Nat × Option Stats) => (x.2.1, x.2.2.1)) this
   simpa [List.map_map, Function.comp_def] using e
 
+/-- `obiuniq -m k | obidemerge -d k | obiuniq -m k` gives back, for the key of every output record of
+the first `obiuniq -m k`, a record with the same `merged_<k>` weights, whose count is the sum of these
+weights (= the count of the first output when the input counts agree with the input `merged_<k>` maps).
+`k` must not be one of the categories (obidemerge rewrites attribute `k`); the entries of the map are
+assumed ≥ 1 and the map non-empty (true when the weights of the input maps are ≥ 1 and at least one
+member of the class contributes; `SetCount` would turn a weight 0 into a count 1).  Both dereplications
+may use different chunk functions. -/
+theorem demerge_uniq (h h' : Seq → Nat) (o : Opts) (input : List Rec) (k : String) (ok : InputOK o input)
+    (hs : o.stats = [k]) (hkc : k ∉ o.cats) (hns : o.noSingleton = false) :
+    ∀ out ∈ uniq h o input, ∀ m, out.merged.lookup k = some m → m ≠ [] → (∀ e ∈ m, 1 ≤ e.2) →
+      ∃ out2 ∈ uniq h' o (demerge k (uniq h o input)),
+        key o out2 = key o out ∧ (∀ v, mweight out2 k v = mweight out k v) ∧
+        out2.count = (m.map (·.2)).sum := by
+  intro out hout m hm hne hpos
+  have hkst : k ∈ o.stats := by rw [hs]; simp
+  have hfacts : ∀ u ∈ uniq h o input, ∀ d ∈ demerge1 k u,
+      key o d = key o u ∧ d.WF ∧ 1 ≤ d.count ∧ d.merged.lookup k = none := by
+    intro u hu
+    obtain ⟨mu, hmu, _⟩ := uniq_merged h o input ok u hu k hkst
+    exact demerge1_facts o k hkc u mu hmu (uniq_isOutput h o input ok u hu).wf
+  have okD : InputOK o (demerge k (uniq h o input)) := by
+    refine ⟨ok.stats_nodup, ?_, ?_⟩
+    · intro d hd
+      obtain ⟨u, hu, hdu⟩ := List.mem_flatMap.mp hd
+      exact (hfacts u hu d hdu).2.2.1
+    · intro d hd
+      obtain ⟨u, hu, hdu⟩ := List.mem_flatMap.mp hd
+      exact (hfacts u hu d hdu).2.1
+  -- the class of key(out) among the demerged records is exactly what obidemerge made of `out`
+  have hclass : classOf o (demerge k (uniq h o input)) (key o out) = demerge1 k out := by
+    unfold classOf demerge
+    rw [List.filter_flatMap]
+    rw [flatMap_congr' (uniq h o input) _
+      (fun u => if key o u = key o out then demerge1 k u else [])]
+    · exact flatMap_single (key o) (demerge1 k) _ (uniq_keys h o input ok hns).1 out hout
+    · intro u hu
+      by_cases hk : key o u = key o out
+      · rw [if_pos hk, List.filter_eq_self]
+        intro d hd; simp [(hfacts u hu d hd).1, hk]
+      · rw [if_neg hk, List.filter_eq_nil_iff]
+        intro d hd; simp [(hfacts u hu d hd).1, hk]
+  -- a first demerged record
+  obtain ⟨e0, he0⟩ := List.exists_mem_of_ne_nil m hne
+  have hd0 : demergeRec k out e0 ∈ demerge1 k out := by
+    rw [demerge1_eq k out m hm]; exact List.mem_map.mpr ⟨e0, he0, rfl⟩
+  have hd0D : demergeRec k out e0 ∈ demerge k (uniq h o input) :=
+    List.mem_flatMap.mpr ⟨out, hout, hd0⟩
+  have hk0 : key o (demergeRec k out e0) = key o out := (hfacts out hout _ hd0).1
+  obtain ⟨_, hcover, _, _⟩ := terminals_classes h' o (demerge k (uniq h o input))
+  have ht := hcover _ hd0D
+  rw [hk0] at ht
+  change classOf o (demerge k (uniq h o input)) (key o out) ∈ _ at ht
+  obtain ⟨out2, hm2, hio2, ecls2, hc2⟩ :=
+    terminal_output h' o _ okD.stats_nodup okD.counts okD.wf _ ht
+  have hkey2 : key o out2 = key o out := by
+    have : demergeRec k out e0 ∈ classOf o (demerge k (uniq h o input)) (key o out) := by
+      rw [hclass]; exact hd0
+    rw [ecls2] at this
+    have h1 := of_decide_eq_true (List.mem_filter.mp this).2
+    rw [← h1, hk0]
+  refine ⟨out2, mem_uniq.mpr ⟨_, ht, not_dropped_of_all hns _, hm2⟩, hkey2, ?_, ?_⟩
+  · intro v
+    obtain ⟨m2, hm2', hw2⟩ := hio2.merged k hkst
+    simp only [mweight, hm2', hm, Option.getD_some]
+    rw [hw2 v, hkey2, hclass]
+    exact (contrib_demerge1 o.na k out m hm hpos v).1
+  · rw [hc2, hclass]
+    exact (contrib_demerge1 o.na k out m hm hpos "").2
+
 /-! ## non-vacuity (tests on a concrete input, not proofs of the property) -/
 
 def exO : Opts := { cats := ["s"], stats := ["s", "t"], na := "NA", noSingleton := false }
@@ -311,5 +381,21 @@ example : (uniq (fun _ => 0) { exO with noSingleton := true } exIn).map (·.id) 
 
 example : (demerge "t" (uniq (fun _ => 0) exO exIn)).map (fun r => (r.id, r.count, r.attrs.lookup "t")) =
     [("a", 3, some "u"), ("a", 1, some "w"), ("c", 2, some "NA"), ("d", 1, some "NA")] := by decide
+
+/-- test: the hypotheses of `demerge_uniq` are satisfiable (k = "t" is not a category, the map of the first
+output is non-empty with entries ≥ 1) and its conclusion on this input -/
+def exO2 : Opts := { exO with stats := ["t"] }
+
+example : InputOK exO2 exIn ∧ exO2.stats = ["t"] ∧ "t" ∉ exO2.cats ∧ exO2.noSingleton = false := by
+  refine ⟨⟨by decide, ?_, ?_⟩, rfl, by decide, rfl⟩
+  · intro r hr; simp [exIn] at hr; rcases hr with rfl | rfl | rfl | rfl <;> decide
+  · intro r hr; simp [exIn] at hr; rcases hr with rfl | rfl | rfl | rfl <;> simp [Rec.WF]
+
+example : (uniq (fun _ => 0) exO2 exIn).map (fun r => r.merged.lookup "t") =
+    [some [("u", 3), ("w", 1)], some [("NA", 2)], some [("NA", 1)]] := by decide
+
+example : (uniq (fun s => s.length) exO2 (demerge "t" (uniq (fun _ => 0) exO2 exIn))).map
+      (fun r => (r.count, r.merged.lookup "t")) =
+    [(4, some [("u", 3), ("w", 1)]), (2, some [("NA", 2)]), (1, some [("NA", 1)])] := by decide
 
 end ObiVerif.Props.C06
